@@ -1,22 +1,108 @@
-HOOK_COMMITS = ['6e462db']
+HOOK_COMMITS = ['6e462db', '4c6b7d2', '8782511']
+
+_K = 'Trusted: Kani/CBMC, Verus/z3/vstd, the std and dependency code below the functions under contract. '
 
 TEXT = {
+    'C01': {
+        'level_text': 'Bounded model checking of the real read_site (3 input columns, 2 populations; complete in the column->population table, the genotype result of every column incl. unselected ones and errors, and the pre-state of the accumulators) plus the complete genotype classification proof (C08). The oracle is the formula of the property statement. The end-to-end composition (parsing, Runner, printing) is not decided.',
+        'design_ref': 'DESIGN.md 5/C01',
+        'level_note': _K + 'sample::Map lookups are replaced by their contract (consistent table); shape rule 1+2*size, Runner::run and printing are assumed. Bounded in columns/populations.',
+        'technique': 'Kani harness on the real read_site with contract stubs for the hash-map sample table (bounded) + Kani full-domain classification',
+    },
+    'C02': {
+        'level_text': 'Verus proof (unbounded) that ProjectIter enumerates exactly prod(m_j+1) cells in row-major order of the target shape, each value a function of (totals, counts, target, cell) only; Kani (bounded: 3 columns, 2 populations, targets <= 6) that read_site takes the exact / projectable / insufficient decision of the statement and that the projected values are products of per-population pmf(t_j, a_j, m_j, k_j) in row-major order, with the pmf replaced by an argument-encoding stub.',
+        'design_ref': 'DESIGN.md 5/C02',
+        'level_note': _K + 'pmf values (f64 through exp/ln) are not decided; Builder::build and Project::shape are not under contract.',
+        'technique': 'Verus contract on the projection odometer + Kani harness on read_site with a pmf stub (bounded)',
+    },
+    'C03': {
+        'level_text': 'Structure only: validation of targets (larger / zero / different dimensionality rejected, complete over usize for two axes), Spectrum::project is the linear operator new[k\'] += x[k] * prod_j H(k\'_j; n_j, k_j, m_j) over all source cells (Kani, bounded shapes, H = stub), and ProjectIter is the row-major odometer (Verus, unbounded). That H is the hypergeometric pmf, finiteness, and the algebraic laws are NOT decided.',
+        'design_ref': 'DESIGN.md 5/C03',
+        'level_note': _K + 'The numerical content of C03 is out of reach of both verifiers (f64 exp/ln).',
+        'technique': 'Kani full-domain validation harnesses + wiring harness with pmf stub (bounded) + Verus odometer contract',
+    },
+    'C04': {
+        'level_text': 'Verus proofs (unbounded, all shapes / axes / positions / call histories): an axis view addresses exactly the elements whose a-th index is i (get_axis contract + theorem_axis_view_element) and its iterator yields them in row-major order once, then None. Kani (bounded shapes): marginalize equals the brute-force sum over the removed axes for every listed axis subset in every order, joint = one-at-a-time, mass preserved; error cases complete for lists of up to 3 axes over usize.',
+        'design_ref': 'DESIGN.md 5/C04',
+        'level_note': _K + 'Array::sum / marginalize_unchecked (iterator adapters) are bounded-checked only; sums on integer-valued cells.',
+        'technique': 'Verus contracts on get_axis / view::Iter (representation invariant) + Kani harnesses on marginalize (bounded)',
+    },
+    'C05': {
+        'level_text': 'Verus proof (unbounded, every shape and dimension): index_sum_from_flat_unchecked(i) is the total allele count of cell i, the flat partner n-1-i is the mirror cell and the counts of a mirror pair add up to T (theorem_mirror_pair). Kani (bounded shapes incl. odd totals, length-1 axes; fill over all f64 bit patterns): every output cell is x[i]+x[mirror] / 0.5x[i]+0.5x[mirror] / fill exactly as stated, fold is idempotent, mass preserving and invariant under mirroring the input.',
+        'design_ref': 'DESIGN.md 5/C05',
+        'level_note': _K + 'Shape::elements assumed in the Verus unit; the wiring of Folded::from_spectrum is bounded-checked on integer-valued cells.',
+        'technique': 'Verus loop invariant + mixed-radix lemmas; Kani harnesses on Spectrum::fold (bounded)',
+    },
+    'C06': {
+        'level_text': 'Exactly decidable subset only: KING, R0, R1 equal the stated ratios on every 3x3 table with integer cells < 2^16 (loop-free Kani, complete); S, sum, pi_xy equal their definitions on an integer-valued 3x4 spectrum (bounded). The other statistics are floating-point formulas through exp/ln/sqrt and are not decided.',
+        'design_ref': 'DESIGN.md 5/C06',
+        'level_note': _K + '8 of 14 statistics and the genotype-level reading are not decided.',
+        'technique': 'Kani harnesses against the definitions (complete for KING/R0/R1, bounded for S/sum/pi_xy)',
+    },
+    'C07': {
+        'level_text': 'npy value path only: the writer emits header then exactly the values in data order as 8 little-endian bytes each (Verus, unbounded, any sink), f64 LE encode/decode is the identity on all 2^64 bit patterns and the f8 decoder returns exactly the decoded value (Kani, complete). Text format, header text round trip and cross-command acceptance are not decided.',
+        'design_ref': 'DESIGN.md 5/C07',
+        'level_note': _K + 'io::Write contract assumed; HeaderDict text and nom parser not verified.',
+        'technique': 'Verus contract on write_array + Kani full-domain encode/decode harnesses',
+    },
     'C08': {
-        'level_text': 'Proof for every allele pair: Kani harnesses without loops over all Option<usize> x Option<usize> x phasings (complete, no bound) for ploidy 1, 2, 3 and the absent genotype; Verus contract on Genotype::try_from_raw extracted from the source. The oracle is the classification in the property statement.',
-        'design_ref': 'DESIGN.md section 5 / C08',
-        'level_note': 'Trusted: noodles GT/BCF decoding into allele positions, Kani/CBMC, Verus/z3. Ploidy > 3 is covered by the same slice pattern but not enumerated. The CLI error text (contig:position) is not decided.',
+        'level_text': 'Proof for every allele pair: loop-free Kani harnesses over all Option<usize> x Option<usize> x phasings for ploidy 1, 2, 3 and the absent genotype (complete); Verus contract on Genotype::try_from_raw; read_site turns a ploidy error of a selected column into an error and ignores unselected columns (bounded: 3 columns).',
+        'design_ref': 'DESIGN.md 5/C08',
+        'level_note': _K + 'noodles GT/BCF decoding assumed; the CLI error text is not decided.',
         'technique': 'Kani full-domain loop-free harnesses + Verus function contract',
     },
+    'C09': {
+        'level_text': 'Column-order independence only: read_site depends on the input columns only through the column->population table, for every table (bounded: 3 columns, 2 populations). First-appearance id assignment, sample-list parsing and the error cases live behind hash maps and closures and are not decided.',
+        'design_ref': 'DESIGN.md 5/C09',
+        'level_note': _K + 'sample::Map / population::Map are assumed by contract.',
+        'technique': 'Kani harness on read_site with a symbolic column->population table (bounded)',
+    },
+    'C11': {
+        'level_text': 'read_site is run from an arbitrary pre-state of every reused accumulator (counts, totals, skipped list, projection scratch buffer) and its postcondition mentions the current record only, so no history of any length can influence a record (bounded in width: 3 columns, 2 populations); Verus: started from a zeroed buffer ProjectIter is a function of (totals, counts, target) only.',
+        'design_ref': 'DESIGN.md 5/C11',
+        'level_note': _K + 'additivity of the running sum in Runner::run is not decided.',
+        'technique': 'Kani harness with unconstrained pre-state (history-free postcondition) + Verus odometer contract',
+    },
+    'C14': {
+        'level_text': 'Non-interference and exact symmetries only: S, pi, Watterson, Tajima D, Fu-Li D, pi_xy, KING, R0, R1 give bit-identical results when only the two monomorphic cells differ (all f64 bit patterns; bounded shapes; binomial stubbed by one table for both runs); KING, R0, R1 are invariant under swapping the two individuals on all integer 3x3 tables. The real-number identities (f3/f4 via f2, folding, scaling) are not decided.',
+        'design_ref': 'DESIGN.md 5/C14',
+        'level_note': _K + 'identities over the reals do not hold bitwise in f64 and are not claimed.',
+        'technique': 'Kani two-run non-interference harnesses (bounded shapes, full f64 domain for the varied cells)',
+    },
+    'C15': {
+        'level_text': 'Writer (Verus, unbounded, every dictionary length hence every residue mod 64): magic, version 1.0, little-endian u16 length, total header length a multiple of 64, newline last, padding spaces, descr/fortran/shape arguments wired as <f8 / False / the array shape, then prod(shape) little-endian doubles. Reader (Kani, complete per decoder): each of the 20 (byte order, type) decoders returns the numpy float64 conversion for all byte patterns; version bytes and length fields for all byte patterns.',
+        'design_ref': 'DESIGN.md 5/C15',
+        'level_note': _K + 'io::Write::write_all contract assumed; dictionary text and nom parser not verified.',
+        'technique': 'Verus contract on Header::write / write_array + Kani full-domain decoder harnesses',
+    },
+    'C16': {
+        'level_text': 'Value section and length field: a partial trailing value is an error for every stream length 0..=9 (contents symbolic), a short length field is an error, inputs shorter than the magic are "invalid format", wrong-length index vectors / value counts are rejected. Truncation inside the dictionary and text damage are not decided.',
+        'design_ref': 'DESIGN.md 5/C16',
+        'level_note': _K + 'nom / str parsing not verified.',
+        'technique': 'Kani harnesses on the npy reader pieces and format detection',
+    },
+    'C17': {
+        'level_text': 'Panic-freedom (overflow, bounds, unwrap/expect, division) of every function under contract: all six Verus units (unbounded, under their stated preconditions) and Kani harnesses aimed at the spots the property names -- format detection on short input (complete for 0..=8 bytes), marginalize/projection validation over all usize, the 14 statistics on degenerate and small shapes (bounded grid).',
+        'design_ref': 'DESIGN.md 5/C17',
+        'level_note': _K + 'the process as a whole (noodles, nom, clap, main) is not under contract.',
+        'technique': 'Verus/Kani safety obligations of the functions under contract',
+    },
+    'C18': {
+        'level_text': 'Writer (Verus, unbounded): for every sink obeying the write_all contract the npy bytes are the same sequence regardless of how many bytes the sink accepts per call, and Ok is returned only if no write failed. Reader: compression/format detection as a function of the stream for every first-chunk length >= 3 (complete for streams <= 6 bytes; shorter first chunks are known finding F14), partial values and short length fields are errors.',
+        'design_ref': 'DESIGN.md 5/C18',
+        'level_note': _K + 'VCF/BCF/BGZF streams and the text writer are not decided.',
+        'technique': 'Verus contract with a ghost byte log and sticky failure flag + Kani harness with a chunked BufRead',
+    },
     'C19': {
-        'level_text': 'Verus contracts on the axis-removal and view/iterator functions extracted from the source, for all shapes and call histories.',
-        'design_ref': 'DESIGN.md section 5 / C19',
-        'level_note': 'Trusted: vstd, AsRef/slice axioms in verus/prelude.rs.',
-        'technique': 'Verus contracts (representation invariants, unbounded)',
+        'level_text': 'Verus proofs for all shapes, axes, positions and call histories: RemovedAxis get/len/index; Array::get_axis is Some iff axis and position are in range and the view addresses exactly the elements with a-th index i (theorem_axis_view_element); view::Iter yields the element of row-major rank k at call k, then None forever, with exact size_hint (representation invariant); AxisIter yields one view per position, then None, exact size_hint; flat<->multi-index bijection as mathematics. Kani (bounded shapes) for flat_index / index_from_flat / get / iter_indices and end-to-end views and sums.',
+        'design_ref': 'DESIGN.md 5/C19',
+        'level_note': _K + 'Array representation invariant assumed in Verus, checked by Kani on listed shapes; elements()/as_ref contracts assumed in two units.',
+        'technique': 'Verus contracts (representation invariants, recursive odometer proof) + Kani harnesses (bounded)',
     },
 }
 
 NOT_APPLICABLE = [
     {'property_id': 'C10', 'reason': 'accounting, strict mode and no-partial-output live in the bin crate (anyhow!/log! expansions, dyn Reader, stderr, exit status); no function within reach of Verus or Kani carries them. The per-record facts are decided under C01/C02.'},
-    {'property_id': 'C12', 'reason': 'threads, BGZF/gzip containers, stdin/file transport and cross-process determinism are concurrency and dependency behaviour: Kani has no threads, Verus cannot see noodles/flate2.'},
-    {'property_id': 'C13', 'reason': 'the operation order is the statement order inside View::run (bin crate, file I/O at both ends, mask step has no function boundary to put a contract on).'},
+    {'property_id': 'C12', 'reason': 'threads, BGZF/gzip containers, stdin/file transport and cross-process determinism are concurrency and dependency behaviour: Kani has no threads, Verus cannot see noodles/flate2. The uncompressed magic-byte detection fragment is decided under C18.'},
+    {'property_id': 'C13', 'reason': 'the operation order is the statement order inside View::run (bin crate, file I/O at both ends, mask step has no function boundary to put a contract on); marginalize and project are decided as library functions under C04/C03.'},
 ]
